@@ -158,11 +158,20 @@ func sustained(idx int64, r *rand.Rand) {
 		rtt = -1000000 - r.Int64N(1000000)
 		rt.Count("gradient_sustained_runs_with_negative_rtts", 1)
 	}
+	zeroRTT := kind == "vegas" && spec.NoLoad == "" && r.IntN(8) == 0
+	if zeroRTT {
+		// "any rtt": a run of drops that all measured 0 ns - what a drop-only window of the windowed limit hands on during a
+		// total outage.  A drop is a drop: apart from probes, every one of them lowers the estimate until the floor.
+		rt.Count("vegas_sustained_runs_of_drops_at_rtt_zero", 1)
+	}
 	eff, total, extra := 0, 0, 0
 	for total < capTotal {
 		before := l.EstimatedLimit()
 		nlBefore := limgen.Baseline(l)
 		s := limgen.Sample{RTT: rtt, InFlight: r.IntN(2*before + 2), Drop: true}
+		if zeroRTT {
+			s.RTT = 0
+		}
 		if r.IntN(3) == 0 {
 			s.InFlight = before
 		}
@@ -177,6 +186,9 @@ func sustained(idx int64, r *rand.Rand) {
 		switch kind {
 		case "vegas":
 			effective = nlBefore != 0 && nlAfter == nlBefore
+			if zeroRTT {
+				effective = true // probes cannot be told apart here (the baseline stays unset); they are paid for in the bound
+			}
 		case "gradient":
 			effective = nlAfter != 0
 		}
@@ -208,7 +220,11 @@ func sustained(idx int64, r *rand.Rand) {
 			}
 			continue
 		}
-		if eff > B {
+		limitB := B
+		if zeroRTT {
+			limitB = 2*B + 8 // at most every second sample of the run can have been a probe
+		}
+		if eff > limitB {
 			rt.Violation("C06/"+kind+"/floor-not-reached-within-bound", idx, rt.J{"spec": spec, "start_estimate": e0, "estimate": after,
 				"floor": floor, "effective_drop_samples": eff, "bound": B, "history_tail": tail(hist, 12)})
 			return
